@@ -27,6 +27,7 @@ type (
 		Vars  []string
 		Types []string
 		Body  Expr
+		Pats  [][]Expr
 	}
 	ECond struct{ C, A, B Expr }
 	ELet  struct {
@@ -160,6 +161,22 @@ func (p *parser) parseTop() (Expr, error) {
 		}
 		if err := p.expectOp("::"); err != nil {
 			return nil, err
+		}
+		for p.isOp("{") {
+			p.next()
+			var pat []Expr
+			for !p.isOp("}") {
+				pe, err := p.parseCond()
+				if err != nil {
+					return nil, err
+				}
+				pat = append(pat, pe)
+				if p.isOp(",") {
+					p.next()
+				}
+			}
+			p.next()
+			q.Pats = append(q.Pats, pat)
 		}
 		b, err := p.parseTop()
 		if err != nil {
